@@ -1,21 +1,66 @@
-"""C08 – lifecycle property, see vf/life.py (engine + oracle_c08)."""
+"""C08 – closing a connection releases everything and silences it.
+
+Layer S, vf.life engine.  Crash-point sweep: every close cause injected at every
+loop iteration (start and end position) of the golden scenarios, with trailing
+device bytes in the same chunk; plus generated multi-fault schedules.
+Oracle (audit): at quiescence no armed timer, no unfinished task, every socket and
+transport closed, every awaited operation finished; after the CLOSED write nothing
+deliverable is written and no subscriber callback runs; three turns after a close
+no timer bound to the connection (keepalive, pong, handshake, request timeout) is
+armed; no raw exception escapes a loop callback.
+"""
 from __future__ import annotations
 
 from vf import life
 from vf.props._lifeprop import run_with
 
 ID = "C08"
-LEVEL = "exploration"
-RULE = "placeholder"
-ASSUMPTIONS = []
-BUDGET = {"quick": {"examples": 800, "shards": 4}, "thorough": {"examples": 20000, "shards": 16}}
+LEVEL = "fault_enumeration"
+RULE = (
+    "fault enumeration: 14 golden scenarios (plaintext|noise x login x {connect only; connect + subscription + request + "
+    "keepalive tick + request; connect + request + disconnect()}, two with separate phases) are run once to count loop "
+    "iterations N; then every cause in {disconnect(), force, cancel, EOF, reset, write failure raising|fatal, chunk "
+    "[DisconnectRequest], [garbage], [0x01 preamble], [undecodable payload], [bad MAC], [unknown type], and 6 chunks with "
+    "trailing frames after the closing one} is injected at the start and at the end of every iteration k<=N; quick also "
+    "enumerates all ordered pairs of 6 causes over all iteration pairs of one scenario; plus generated schedules (see "
+    "C05). non-trivial = the injected cause took effect before the scenario's natural end (a CLOSED write precedes the "
+    "end of the main flow) . distinct = distinct case JSON."
+)
+ASSUMPTIONS = [
+    "the simulated transport does not model a non-empty kernel send buffer (close with unflushed writes)",
+    "a write handed to a transport whose socket the connection had already closed (connection_made racing a close) "
+    "cannot reach the device: counted as dead_write, not judged",
+    "a caller-side cancel is a close cause only while a connect phase runs; healthy sessions are ended by a final disconnect()",
+]
+EXHAUSTIVE_NOTE = "single-cause sweep over every loop iteration (2 positions) of all golden scenarios; pairwise sweep of one scenario"
+BUDGET = {"quick": {"examples": 500, "shards": 6}, "thorough": {"examples": 12000, "shards": 16}}
+FLOORS = {"close_before_main_end": 0.2}
+
+PAIR = [
+    {"do": "disconnect"}, {"do": "force"}, {"do": "eof"}, {"do": "chunk", "frames": ["discreq", "state"]},
+    {"do": "chunk", "frames": ["garbage"]}, {"do": "writefail_raise"},
+]
+PAIR_THOROUGH = PAIR + [{"do": "reset"}, {"do": "cancel"}, {"do": "chunk", "frames": ["badproto", "state"]}, {"do": "writefail_fatal"}]
 
 
 def run_case(case):
     res = run_with(ID, case)
     res.nontrivial = "close_before_main_end" in res.classes
+    obs = res._obs
+    res.info["dead_writes"] = obs.dead_writes
     return res
 
 
 def strategy(tier):
     return life.case_strategy(tier)
+
+
+def enumerated(tier):
+    yield from life.single_fault_sweep()
+    scs = life.golden_scenarios()
+    if tier == "quick":
+        yield from life.pair_fault_sweep(scs[4], PAIR)  # plaintext, login, full flow
+    else:
+        for sc in (scs[4], scs[10], scs[5], scs[12]):
+            yield from life.pair_fault_sweep(sc, PAIR_THOROUGH)
+    yield from life.hello_trailer_sweep()
